@@ -8,7 +8,7 @@
       dots or backslashes,
     - at most [budget] wire bytes in total (labels with their length bytes and the final root byte);
     [e] is where the name ends in the record that contains it: right after the root byte, or right
-    after the first pointer.
+    after the first pointer; the list index is the sequence of labels read.
 
     [cname p off e] is the policy for a name starting at [off]: 16 pointers, 255 bytes. *)
 
@@ -19,28 +19,35 @@ Definition label_char_ok (c : N) : bool :=
 
 Definition ptr_target (hi lo : N) : nat := N.to_nat (N.land hi 63 * 256 + lo).
 
-Inductive name_at (p : bytes) : nat -> nat -> nat -> nat -> nat -> nat -> Prop :=
+Inductive name_at (p : bytes) : nat -> nat -> nat -> nat -> nat -> list bytes -> nat -> Prop :=
 | NRoot : forall off bar low hops budget,
     off < bar -> nth_error p off = Some 0%N -> 1 <= budget ->
-    name_at p off bar low hops budget (off + 1)
-| NLabel : forall off bar low hops budget len e,
+    name_at p off bar low hops budget [] (off + 1)
+| NLabel : forall off bar low hops budget len ls e,
     off < bar -> nth_error p off = Some len ->
     (1 <= len)%N -> (len <= 63)%N ->
     off + N.to_nat len + 1 <= length p ->
     forallb label_char_ok (firstn (N.to_nat len) (skipn (off + 1) p)) = true ->
     N.to_nat len + 1 <= budget ->
-    name_at p (off + N.to_nat len + 1) bar low hops (budget - (N.to_nat len + 1)) e ->
-    name_at p off bar low hops budget e
-| NPtr : forall off bar low hops budget hi lo tb e',
+    name_at p (off + N.to_nat len + 1) bar low hops (budget - (N.to_nat len + 1)) ls e ->
+    name_at p off bar low hops budget (firstn (N.to_nat len) (skipn (off + 1) p) :: ls) e
+| NPtr : forall off bar low hops budget hi lo tb ls e',
     off < bar -> nth_error p off = Some hi -> (N.land hi 192 = 192)%N ->
     nth_error p (off + 1) = Some lo ->
     ptr_target hi lo < low ->
     nth_error p (ptr_target hi lo) = Some tb -> tb <> 0%N ->
-    name_at p (ptr_target hi lo) low (ptr_target hi lo) hops budget e' ->
-    name_at p off bar low (S hops) budget (off + 2).
+    name_at p (ptr_target hi lo) low (ptr_target hi lo) hops budget ls e' ->
+    name_at p off bar low (S hops) budget ls (off + 2).
 
-Definition cname (p : bytes) (off e : nat) : Prop :=
-  off < length p /\ name_at p off (length p) off 16 255 e.
+(** [cname_l p off ls e]: the policy name at [off] has the labels [ls] and ends at [e]. *)
+Definition cname_l (p : bytes) (off : nat) (ls : list bytes) (e : nat) : Prop :=
+  off < length p /\ name_at p off (length p) off 16 255 ls e.
+
+Definition cname (p : bytes) (off e : nat) : Prop := exists ls, cname_l p off ls e.
+
+(** wire form of a label list: each label prefixed by its length, then the root byte *)
+Definition wire_of_labels (ls : list bytes) : bytes :=
+  flat_map (fun l => N.of_nat (length l) :: l) ls ++ [0%N].
 
 (** Pointer-free name with arbitrary label bytes (DNAME targets). *)
 Inductive plain_name_at (p : bytes) : nat -> nat -> nat -> Prop :=
